@@ -86,7 +86,7 @@ func countNotes(f *smfdec.File) int {
 
 func checkC02(c *core.Ctx) {
 	c.Rule("random sequences of chords and rests (rests leading, inner, consecutive up to 5, trailing; 1..4 fractions per instance with numerators 1..64 and denominators incl. primes and non-divisors of the resolution, sometimes 5..9 fractions whose denominators multiply beyond 64 bits; text, lyric and marker metadata anywhere; repeated chords; settings on rests; 1..4 tracks), " +
-		"a deterministic list of exactly-halfway values and a list of adversarial near-halfway values; every note-on must sit at its instance start and every note-off at start+round(T*sum) computed in exact rationals (either neighbour at exact halves, tracked as a set), nothing may sound in a rest, releases precede strikes of the same key; " +
+		"a deterministic list of exactly-halfway values, a list of adversarial near-halfway values and single instances just below 2^28 ticks (2^28-1 +0, +1/4, +0.49, ... in four positions); every note-on must sit at its instance start and every note-off at start+round(T*sum) computed in exact rationals (either neighbour at exact halves, tracked as a set), nothing may sound in a rest, releases precede strikes of the same key; " +
 		"non-trivial = piece with a rest, an instance with >= 2 fractions and a denominator not dividing T; distinct by the sequence of (kind, exact duration)")
 	c.Assume("math/big exact rationals", "smfdec", "T is read from the file header", "instances of 0..2 ticks are generated for single-track files only (chords are told apart by runs of note-ons there)")
 
